@@ -145,3 +145,34 @@ if __name__ == '__main__':
         rows = evaluate(sys.argv[2:])
         json.dump(rows, open(os.path.join(V, 'seeded', '_last_eval.json'),
                              'w'), indent=1)
+
+
+def try_(props, ids):
+    for sid in ids:
+        sd = os.path.join(V, 'seeded', sid)
+        d = scratch()
+        try:
+            if sid == 'PINNED':
+                sh('git checkout -q d51066b -- file_builder', cwd=d)
+            else:
+                rc, o = sh('git apply %s' % os.path.join(sd, 'patch.diff'),
+                           cwd=d)
+                if rc:
+                    print(sid, 'patch does not apply', o)
+                    continue
+            ev = tempfile.mkdtemp(prefix='fbseed_ev_')
+            for p in props:
+                rc, o = sh('%s %s/check.py %s --repo %s --evidence-dir %s' % (
+                    PY, V, p, d, ev))
+                print('#### %s on %s -> exit %d' % (p, sid, rc))
+                keep = [l for l in o.splitlines()
+                        if 'HOLDS' not in l and not l.startswith('==') and
+                        'note:' not in l]
+                print('\n'.join(keep[:60]))
+            shutil.rmtree(ev, ignore_errors=True)
+        finally:
+            drop(d)
+
+
+if __name__ == '__main__' and sys.argv[1] == 'try':
+    try_(sys.argv[2].split(','), sys.argv[3:])
